@@ -299,17 +299,17 @@ Theorem C02_group_glue_variants_refused :
 Proof. vm_compute. repeat split. Qed.
 Print Assumptions C02_group_glue_variants_refused.
 
-(* REFUTED (recorded finding C02:http-group:rejoin-same-member-name-reuses-former-backend): the pool key of a group
-   route cannot tell two registrations apart when the member names agree -- a group route keeps registration
-   id 0 (it is added to the router directly) -- so a member joining under a former member's name inherits the idle
-   connections to the former backend.  PARTIAL: routes registered through HTTPReverseProxy.Register carry their
-   own id (hc_id), which is part of the key. *)
-Theorem C02_group_pool_key_ignores_registration_refuted : forall rc1 rc2,
-  hc_domain rc1 = hc_domain rc2 -> hc_location rc1 = hc_location rc2 -> hc_user rc1 = hc_user rc2 ->
-  hc_endpoint rc1 = hc_endpoint rc2 -> hc_id rc1 = 0 -> hc_id rc2 = 0 ->
-  hr_pool_key rc1 = hr_pool_key rc2.
-Proof. intros rc1 rc2 H1 H2 H3 H4 H5 H6. unfold hr_pool_key. rewrite H1, H2, H3, H4, H5, H6. reflexivity. Qed.
-Print Assumptions C02_group_pool_key_ignores_registration_refuted.
+(* Every join of a group member gets an endpoint id of its own (repair e71b6d4; before it this check proved and
+   replayed the opposite: a member joining under a former member's name inherited the idle connections to the
+   former backend, finding F-C02f).  Reflective over HTTPGroup.Register / chooseEndpoint (unit t9gr): the id is
+   name # join-number and it is the id that chooseEndpoint hands to the Rewrite closure; and two joins of one name
+   have different ids (hence, by theorem C02_group_request_dialled_and_pooled_by_chosen_member, different
+   endpoint components of the pool key). *)
+Theorem C02_group_member_endpoint_id_per_join :
+  hg_endpoint_shape_ok gen_group_endpoint_id_expr gen_group_choose_returns = true /\
+  forall name j1 j2, hr_dec j1 <> hr_dec j2 -> hg_endpoint_id hr_dec name j1 <> hg_endpoint_id hr_dec name j2.
+Proof. split; [vm_compute; reflexivity|exact (hg_endpoint_id_distinct hr_dec)]. Qed.
+Print Assumptions C02_group_member_endpoint_id_per_join.
 
 (* Reflective over today's createConn / createConnByEndpoint (unit t9gr): the group's read lock is released before
    a member's connection is created ... *)
